@@ -297,7 +297,7 @@ def run_shard(desc, tier):
         _, k, n = desc
         cfgs = [c for c in c06.asgi_configs("quick") if c[5]][k::n]
         for cfg in cfgs:
-            kind, nn, raise_at, gate_sends, slow_close, disc, pings = cfg
+            kind, nn, raise_at, gate_sends, slow_close, disc, pings, empty_at = cfg
 
             def on_exec(x):
                 r.count("evaluations")
